@@ -24,6 +24,7 @@ const (
 	vcMovedB
 	vcMovedC // a node the client does not know yet
 	vcAskB
+	vcAskC // ASK naming a node the client does not know yet (a freshly added importing node)
 	vcTryAgain
 	vcLoading
 	vcClusterDown
@@ -57,6 +58,8 @@ func VerifC19_redirect() {
 				return verifErrReply("MOVED 42 c:1")
 			case vcAskB:
 				return verifErrReply("ASK 42 b:1")
+			case vcAskC:
+				return verifErrReply("ASK 42 c:1")
 			case vcTryAgain:
 				return verifErrReply("TRYAGAIN Multiple keys request during rehashing of slot")
 			case vcLoading:
@@ -127,6 +130,7 @@ func VerifC19_redirect() {
 	verifAssert(trace[0].node == "a:1" && len(trace[0].cmds) == 1, "the first send goes to the node owning the slot")
 	redirects := 0
 	owner := "a:1" // where the slot table points: updated when MOVED creates a connection to a new node
+	knownC := false  // a connection to c:1 exists already (created by an earlier ASK or MOVED)
 	for i := 1; i < n; i++ {
 		prev, cur := outs[i-1], trace[i]
 		switch prev {
@@ -138,12 +142,23 @@ func VerifC19_redirect() {
 			}
 			verifAssert(cur.node == want && len(cur.cmds) == 1, "after MOVED the command is re-sent, alone, to the named node")
 			if prev == vcMovedC {
-				owner = "c:1"
+				if !knownC {
+					owner = "c:1" // MOVED to a node the client had no connection to: the slot moves with it
+				}
+				knownC = true
 			}
 			verifReach("moved")
-		case vcAskB:
+		case vcAskB, vcAskC:
 			redirects++
-			verifAssert(cur.node == "b:1" && len(cur.cmds) == 2 && cur.cmds[0] == "ASKING", "after ASK the command is re-sent to the named node preceded by ASKING")
+			want := "b:1"
+			if prev == vcAskC {
+				want = "c:1"
+			}
+			verifAssert(cur.node == want && len(cur.cmds) == 2 && cur.cmds[0] == "ASKING", "after ASK the command is re-sent to the named node preceded by ASKING")
+			if prev == vcAskC {
+				knownC = true
+			}
+			// an ASK is a one-off redirect: the slot stays with its owner
 			verifReach("asked")
 		case vcExpired:
 			verifAssert(cur.node == trace[i-1].node, "after a connection-lifetime expiry the same step is repeated on the same node")
@@ -164,6 +179,7 @@ func VerifC19_redirect() {
 	} else {
 		verifAssert(resp.Error() != nil, "the last error is returned")
 	}
+	verifAssert(c.wslots[slot] != nil && c.wslots[slot].Addr() == owner, "the slot table points to the slot's owner: only MOVED (never ASK) moves a slot")
 	if outs[n-1] == vcMovedC || (n >= 2 && outs[n-2] == vcMovedC) {
 		_, known := c.conns["c:1"]
 		verifAssert(known || (maxRedirects > 0 && redirects >= maxRedirects), "a node named by MOVED becomes known")
